@@ -347,7 +347,8 @@ package table
 //@   loop 0 step match ==> len(newComms) == header(len(newComms))
 //@ func RegexpRemoveCommunities
 //@   requires path != nil
-//@   claims step at-call
+//@   no-alias-writes
+//@   claims step at-call alias
 //@   loop 0 step !match ==> len(newComms) == header(len(newComms)) + 1 && newComms[len(newComms)-1] == comm
 //@   loop 0 step match ==> len(newComms) == header(len(newComms))
 // ... and the list that is built is memory of this call, not the stored attribute's backing array
